@@ -278,14 +278,19 @@ def run_verus_unit(u, tier, scratch):
         return undecided(res, "verus resource limit: " + resource_limited[0]["msg"])
     if hard:
         res["status"] = "violation"
+        by_fn = {}
         for e in hard:
             clause = ""
             for t in e["text"]:
                 if "|" in t and re.match(r"^\s*\d+\s*\|", t):
                     clause = t.split("|", 1)[1].strip(); break
+            e["clause"] = clause
+            by_fn.setdefault(e["fn"], []).append(e)
+        for fn, es in by_fn.items():
             res["failed"].append({
-                "obligation": f"{u['id']}/{e['fn']}", "kind": e["msg"], "clause": clause,
-                "generated_line": e["line"], "verifier_output": "\n".join(e["text"])[:3000],
+                "obligation": f"{u['id']}/{fn}", "kind": es[0]["msg"], "clause": " ;; ".join(f"{e['msg']}: {e['clause']}" for e in es),
+                "failed_clauses": [{"kind": e["msg"], "clause": e["clause"], "generated_line": e["line"]} for e in es],
+                "verifier_output": "\n".join("\n".join(e["text"]) for e in es)[:6000],
                 "counterexample": None,
             })
         return res
